@@ -19,7 +19,7 @@ VARIANTS = {
     # name: (cc, cflags, backend, extra defs)
     'plain':   ('gcc',   ['-O2'], 'idn2', []),
     'asan':    ('clang', ['-O1', '-g', '-fsanitize=address,undefined', '-fno-sanitize-recover=all', '-fno-omit-frame-pointer'], 'idn2', []),
-    'cov':     ('clang', ['-O1', '-fsanitize-coverage=trace-pc-guard', '-fno-builtin'], 'idn2', []),
+    'cov':     ('clang', ['-O1', '-fsanitize-coverage=trace-pc-guard,trace-loads,trace-stores', '-fno-builtin'], 'idn2', []),
     'tsan':    ('clang', ['-O1', '-g', '-fsanitize=thread'], 'idn2', []),
     'extra':   ('gcc',   ['-O2'], 'idn2', ['-DEAV_EXTRA']),
     'idn':     ('gcc',   ['-O2'], 'idn', []),
